@@ -1,3 +1,4 @@
+mod alloc;
 mod builtins;
 mod freevars;
 mod gen_alias;
